@@ -90,6 +90,17 @@ def run_case(scenario, schedule, **kw):
     return r
 
 
+def second_table_problems(scenario, r):
+    """A second table running concurrently in the same process (scenario['table2']) is a session of its own: it must
+    complete, log its own boards and tell each of its seats exactly what that seat is entitled to."""
+    t2 = getattr(r, 'table2', None)
+    if t2 is None:
+        return []
+    sc2 = scenario['table2']
+    probs = completion_problems(sc2, t2) or (log_problems(sc2, t2) + stream_problems(sc2, t2))
+    return [('second table in the same process: ' + c, d) for c, d in probs]
+
+
 def case_of(scenario, schedule, r=None, extra=None):
     c = {'scenario': scenario, 'schedule': schedule}
     if r is not None:
